@@ -130,7 +130,22 @@ def run_schedule_case(case, workdir, want):
     where = O.scn_where(scn)
     V = out["violations"]
     probes = out["probes"]
-    if res.status == "error":
+    degenerate = False
+    if res.status == "error" and h is not None and getattr(h, "sample_history", None):
+        import numpy as _np
+
+        from ..core import to_np as _to_np
+
+        p0 = h.sample_history[-1]
+        tot = _np.asarray(_to_np(p0.log_likelihood), dtype=float) + _np.asarray(_to_np(p0.log_prior), dtype=float)
+        x_last = _np.asarray(_to_np(p0.x), dtype=float)
+        # no particle has a non-zero target density (every incremental weight is exactly zero), or the population has
+        # collapsed onto a single point: the problem handed to the schedule is degenerate, whatever the options
+        degenerate = bool(not _np.any(_np.isfinite(tot))) or bool(len(x_last) > 1 and _np.all(x_last == x_last[0]))
+    if res.status == "error" and degenerate:
+        out["aborted"] = {"why": "degenerate population (all weights zero or a single repeated particle)", "error": res.error}
+        probes["degenerate_population"] = 1
+    elif res.status == "error":
         if "c06" in want:
             V.append(
                 O.violation(
